@@ -3,6 +3,7 @@ use crate::common::{Ctx, Stats};
 
 pub mod c01;
 pub mod s4common;
+pub mod s4parts;
 pub mod c02;
 pub mod c03;
 pub mod c04;
